@@ -10,7 +10,7 @@ CHECK = dict(
          'is checked against a ghost ownership model per buffer (free/claimed/sent/held: no double hand-out, exact payload, claim order, claim fails only with no free buffer counting claims in progress, free count at quiescence); states = distinct hashed '
          'states at choice points, transitions = scheduling steps + injected interrupts, traces = executions run on the real code',
     bounds=dict(quick='1-2 senders x depth 1..3 x 1-2 messages each, retrying and give-up senders, receiver thread or no receiver, from fresh / wrapped-cursor / full / one-slot-free start states: ALL interleavings (2 senders x 2 messages: <=3 preemptions); 3 senders: <=2 preemptions (senders only: <=3); receiver main + 1..3 sender interrupts nested up to 3 deep and sender main + 1..3 sender interrupts nested up to 2 deep: all placements',
-                thorough='same with no bound for 2 senders, 3 senders <=3 preemptions (senders only <=4), up to 4 sender interrupts, plus one spurious weak-CAS failure as a further deviation class'),
+                thorough='2 senders x 1 message: all interleavings from every start state; 2 senders x 2 messages: <=4 preemptions; 3 senders <=3 preemptions (senders only <=4); up to 4 sender interrupts nested 3 deep: all placements; plus one spurious weak-CAS failure per execution as a further deviation class'),
     assumptions=['sequentially consistent interleavings at atomic-operation granularity; justified for weak memory by the '
                  'data-race check of C07 over the same scenarios', 'one receiver; releases in receive order (API rule)',
                  'state-hash pruning trusts the 128-bit hash'],
